@@ -1707,11 +1707,20 @@ class H2Connection:
         not as frames on an idle stream.
         """
         promised_stream_id = frame.promised_stream_id
-        if promised_stream_id > self.highest_inbound_stream_id:
-            self.highest_inbound_stream_id = promised_stream_id
-            self._closed_streams[promised_stream_id] = (
-                StreamClosedBy.SEND_RST_STREAM
+        if promised_stream_id <= self.highest_inbound_stream_id:
+            # RFC 7540 Section 6.6: a promised stream has to be idle. This one
+            # has been used before, so this is not a promise that was in
+            # flight when we reset its parent. Refusing it with RST_STREAM
+            # would reset, on the wire only, a stream that may well be alive:
+            # handle it like any other reuse of a stream ID.
+            raise StreamIDTooLowError(
+                promised_stream_id, self.highest_inbound_stream_id
             )
+
+        self.highest_inbound_stream_id = promised_stream_id
+        self._closed_streams[promised_stream_id] = (
+            StreamClosedBy.SEND_RST_STREAM
+        )
 
         f = RstStreamFrame(promised_stream_id)
         f.error_code = ErrorCodes.REFUSED_STREAM
